@@ -130,6 +130,19 @@ def run(ctx):
                 raw = out[i]; i += 1
                 r = Fraction(e.beat_at(float(t), EventTag[a]))
                 res.traces += 1
+                # the same time given as an exact Fraction, or as an int when it is whole, is the same time: same tick-aligned answer
+                alts = [Fraction(t)] + ([int(Fraction(t))] if Fraction(t).denominator == 1 else [])
+                bad_alt = None
+                for alt in alts:
+                    try:
+                        r2 = Fraction(e.beat_at(alt, EventTag[a]))
+                    except Exception as ex:
+                        r2 = core.exc_name(ex)
+                    if r2 != r: bad_alt = (alt, r2)
+                if bad_alt:
+                    res.violation(case, "beat_at answers differently when the same time is given as %s" % type(bad_alt[0]).__name__, time=str(t), tag=a,
+                                  impl=str(bad_alt[1]), expected=str(r))
+                    continue
                 if r != model:
                     # the exact position sits on a half tick: the float product may land on either side
                     if raw is not None and abs(abs((unfrac(raw) * 48) % 1) - Fraction(1, 2)) < Fraction(1, 10**6) and abs(r - model) == Fraction(1, 48):
